@@ -224,18 +224,22 @@ func c17RunSession(e *Env, s *c17Session, record bool) (v c17SessVerdict) {
 		req = append(req, in.nodes, in.table)
 	}
 	rep := strings.Split(e.O.Ask(req...), "\t")
-	guardsOK := make([][2]bool, n) // named, utf8
+	guardsOK := make([][4]bool, n) // named, utf8, CompileNames, HasMainFn
 	if len(rep) != 3+len(s.ops) || rep[0] != "ok" {
 		mism("session request", strings.Join(rep, " ")[:min(200, len(strings.Join(rep, " ")))], "oracle could not decode the session request")
 		for i := range guardsOK {
-			guardsOK[i] = [2]bool{true, true}
+			guardsOK[i] = [4]bool{true, true, true, false}
 		}
 	} else {
 		g := strings.Fields(rep[1])
 		for i := range guardsOK {
-			guardsOK[i] = [2]bool{true, true}
-			if i < len(g) && len(g[i]) == 2 {
-				guardsOK[i] = [2]bool{g[i][0] == '1', g[i][1] == '1'}
+			guardsOK[i] = [4]bool{true, true, true, false}
+			if i < len(g) && len(g[i]) == 4 {
+				guardsOK[i] = [4]bool{g[i][0] == '1', g[i][1] == '1', g[i][2] == '1', g[i][3] == '1'}
+			}
+			if !guardsOK[i][2] {
+				mism("program "+strconv.Itoa(i)+" compiled by the real compiler: "+c17NamesDetail(codes[i]), "CompileNames = false",
+					"compile produced a tree outside the naming discipline (a code object carries a name exactly when it is a named function): isNamed is not serialised")
 			}
 		}
 		if want := fmt.Sprintf("%d %d", len(codes), len(blobs)); rep[2] != want {
@@ -296,6 +300,16 @@ func c17RunSession(e *Env, s *c17Session, record bool) (v c17SessVerdict) {
 		where := fmt.Sprintf("call #%d (%s%d, program %d)", k, string(it.op.kind), it.op.idx, it.src)
 		switch it.kind {
 		case 'c':
+			// the retained code object IS the compiled program it descends from (session_closed_compiled)
+			if nodes, table, _ := c17Export(it.code); nodes != inits[it.src].nodes || table != inits[it.src].table {
+				viol(it.src, false, "the code returned by %s differs from the compiled program %d: retained %s | compiled %s%s", where, it.src,
+					c17Diff(nodes+"|"+table, inits[it.src].nodes+"|"+inits[it.src].table), c17Diff(inits[it.src].nodes+"|"+inits[it.src].table, nodes+"|"+table), c17NamedDiff(codes[it.src], it.code))
+			}
+			if f0, _ := c17FramesFit(codes[it.src]); f0 {
+				if f1, why := c17FramesFit(it.code); !f1 {
+					viol(it.src, false, "every function of program %d fits its frame, but in the code returned by %s %s: calling it writes past the frame's locals", it.src, where, why)
+				}
+			}
 			if repeatable[it.src] {
 				if o := c17Run(it.code); o != outs[it.src] {
 					viol(it.src, false, "the code returned by %s behaves differently from program %d: original %s | retained code %s", where, it.src, outs[it.src].String(), o.String())
@@ -330,8 +344,8 @@ func c17RunSession(e *Env, s *c17Session, record bool) (v c17SessVerdict) {
 			switch {
 			case !guardsOK[x.src][1]:
 				fid = c17FindUtf8
-			case !guardsOK[x.src][0]:
-				fid = c17FindMain
+			case !guardsOK[x.src][0] && guardsOK[x.src][2] && guardsOK[x.src][3]:
+				fid = c17FindMain // exact guard: a compiled tree with a function called __main__
 			}
 		}
 		if fid == "" {
